@@ -131,7 +131,11 @@ def run_case(case):
         b2, r2, calls2 = execute(case, conf)
         same = (r[0] == r2[0]) and (r[0] == "exc" and r[1] == r2[1] or r[0] == "ok" and r[1].structure == r2[1].structure) and calls == calls2
         if not same:
-            raise RuntimeError("C13 harness: execution %s of %s did not replay identically" % (conf, case))
+            # The same choice sequence on a fresh object gave another observation. The harness owns every choice (solver, availability, outcome) and CBC
+            # is deterministic, so the difference comes from state the library kept between the two executions; the second answer is judged as well.
+            judge(case, seq, stems, graph, fc, opt, "none" if not knotted else eff, r2, tag + " (second execution)", out, b2)
+            out.append(viol("replay-diverges:%s" % eff, "%s: the same configuration executed twice on fresh objects gave different observations (%s vs %s)"
+                            % (tag, r[1].structure if r[0] == "ok" else r[1], r2[1].structure if r2[0] == "ok" else r2[1]), None, None))
         states += 1
         transitions += 1
         traces += 1
